@@ -54,6 +54,7 @@ class Universe(object):
         self.files = []     # durable store: dicts {path, backend, doc}
         self.merges = []    # (dest index, source index) of Section merges that succeeded
         self.templates = None  # the run's TemplateHandler (created on first use)
+        self.validations = []  # (Validation, object) pairs the harness keeps for a later re-run
         self.corrupt = None  # set by the structural guard
 
     # -- registry ---------------------------------------------------------
